@@ -123,9 +123,12 @@ CLAIMED = {
   'C09': dict(
     text='Linen: on the reference semantics of C01, every key handed out is addressed by (stream after the params fallback, module path, per-scope count) and no two draws of one init/apply share '
          'an address (invariant over the interpreter, all programs); the byte string hashed with the separator determines the path for zero-free components (F8 and the no-separator collision '
-         'are the proved refutations outside that domain). NNX: stream = (key term, count); for every history of draws, split_rngs and restore_rngs no key term is handed out twice; missing '
+         'are the proved refutations outside that domain); LazyRng at the lift.jit / fold_rngs boundary (after the F31 repair): the path of every scope handed to the transform is folded '
+         'into the key data, so scopes with differently hashed paths draw different keys inside, none equal to a key of the root scope, the keys of the transformed module itself are unchanged; the '
+         'former clear_suffix behaviour is the proved refutation. NNX: stream = (key term, count); for every history of draws, split_rngs and restore_rngs no key term is handed out twice; missing '
          'stream -> default; reseed restarts. Tied to /repo per run: every observed key is decoded by an independent recomputation (hashlib.sha1 + jax.random) into an address / key term and the '
-         'sequences are compared with the model in Coq, under both settings of flax_fix_rng_separator.',
+         'sequences are compared with the model in Coq, under both settings of flax_fix_rng_separator; sibling modules / child scopes passed as arguments into nn.jit (method and class), nn.fold_rngs and the core lift.jit, '
+         'NNX streams under ToLinen, keys under nn.jit over several applies.',
     note='ASSUMPTION (not proved): idealised PRNG - fold_in/split/key injective, SHA-1[:4] injective on the hashed strings. Trusted: Coq kernel, vm_compute, harness, jaxcompat, jax.random, '
          'hashlib. split(k, n)[i] is independent of n (observed) and the key terms record i only. Known finding F8. No axioms.',
     technique='Coq proof (trace invariants over the interpreter and over stream histories) + per-run correspondence by decoding observed keys, vm_compute',
@@ -165,13 +168,13 @@ CLAIMED = {
          'convolution is the direct sum over the input rows x[(o + t*d - pa) / s] its taps meet, SAME gives n*s and VALID n*s + max(k_eff - s, 0) positions, and the CIRCULAR wrap adds up exactly '
          'the entries congruent to each position of the period; max pooling '
          'returns a bounding element of the window; Embed is a lookup; masked positions cannot influence normalisation statistics, deviations from the mean sum to zero, running averages at momentum '
-         '0 and 1; which elements share their statistics: the model computes the reduction groups of a whole layer from the shape and the axes (row-major flat index <-> multi-index are inverse '
+         '0 and 1; DenseGeneral / LinearGeneral as the contraction over flat row-major tensors (the order in which the contracted axes are written is irrelevant: kernel dimensions follow them in ascending order); which elements share their statistics: the model computes the reduction groups of a whole layer from the shape and the axes (row-major flat index <-> multi-index are inverse '
          'bijections; the groups partition the elements; LayerNorm / RMSNorm / InstanceNorm elements share a group iff they agree on every non-reduced axis; GroupNorm elements iff they are in the '
          'same batch row and their channels (flat index mod C) lie in the same block of C/G channels). Tied to /repo per run: every layer of the property (Dense, DenseGeneral, Einsum, Conv 1-D/2-D, ConvLocal, ConvTranspose, Embed, pooling, LayerNorm / RMSNorm / GroupNorm / '
          'InstanceNorm / BatchNorm, Dropout) in Linen and NNX with explicit integer parameters is compared with an independent numpy direct-sum reference and Linen with NNX; the modelled '
          'layers are also compared with the model in Coq, the outputs of LayerNorm / RMSNorm / GroupNorm / InstanceNorm included (square-root free: (y - b)^2 (var + eps) = s^2 (x - mean)^2 with the sign of s (x - mean), over the reduction groups the model derives from shape and axes).',
-    note='Trusted: Coq kernel, vm_compute, harness (numpy reference c12_ref.py), jaxcompat, float64 arithmetic of XLA on small integers. NOT proved / not modelled: DenseGeneral and Einsum axis '
-         'arithmetic, 2-D ConvTranspose, 3-D convolutions, ConvLocal, Dropout: oracle-only; for tensors above 256 elements the reduction groups of the normalisation layers are computed by the harness. Outputs at masked positions and windows '
+    note='Trusted: Coq kernel, vm_compute, harness (numpy reference c12_ref.py), jaxcompat, float64 arithmetic of XLA on small integers. NOT proved / not modelled: Einsum axis '
+         'arithmetic, 2-D ConvTranspose, 3-D convolutions, ConvLocal, Dropout, DenseGeneral batch_dims: oracle-only; for tensors above 256 elements the reduction groups of the normalisation layers are computed by the harness. Outputs at masked positions and windows '
          'entirely in the padding (0/0) are unspecified and compared as the code gives them. dtype promotion, precision, axis_name not covered. No axioms.',
     technique='Coq proof (index arithmetic of padding / strides, non-interference, rational statistics) + per-run correspondence by vm_compute + independent direct-sum reference on the real code',
     ref='DESIGN.md section 5, C12'),
